@@ -1,0 +1,11 @@
+//go:build verif
+
+package bloombits
+
+// Add-only exports for the verification harness (/verif, property C16).
+
+// VerifCalcBloomIndexes exposes calcBloomIndexes.
+func VerifCalcBloomIndexes(b []byte) [3]uint { return calcBloomIndexes(b) }
+
+// VerifRow returns the rotated row of the given bloom bit without Bitset's checks.
+func (b *Generator) VerifRow(idx uint) []byte { return b.blooms[idx] }
